@@ -93,6 +93,14 @@ def seeds_for(rng, label, scheme):
     if kind.startswith("from_string"):
         sch = rng.choice(sorted(VR.RANGE_CLASS_BY_SCHEMES))
         g2 = "semver"
+        if rng.random() < 0.7:
+            try:
+                from harness import corr_textvers as CT
+                g2 = CT.gen_name_of(VR.RANGE_CLASS_BY_SCHEMES[sch].version_class) or "semver"
+                if g2 not in S.GEN:
+                    g2 = "semver"
+            except Exception:  # noqa: BLE001
+                g2 = "semver"
         return "vers:%s/%s" % (sch, "|".join(rng.choice([">=", "<=", "<", ">", "!=", "", "="]) + S.GEN[g2](rng) for _ in range(rng.randint(1, 4))))
     if kind == "native":
         t = rng.random()
@@ -128,6 +136,7 @@ def correspondence(ctx):
                     ctx.disagree("version-model:" + name, "vparse", d["impl"], d["model"], bad,
                                  {"scheme": name, "text": d["a"], "clause": "constructor lets %s escape" % d["impl"]}, spec="InvalidVersion only")
     _fuzz(ctx)
+    _near_pairs(ctx)
     _timing(ctx)
 
 
@@ -184,6 +193,55 @@ def _fuzz(ctx):
                               "python": "see entry point %s on %r" % (label, s)},
                              region=_region(label, s, out, e), spec="declared error or success")
     ctx.sample({"entry_point": "native:npm", "text": "^1.2.x || >", "outcome": _outcome(lambda: VR.NpmVersionRange.from_native("^1.2.x || >"))})
+
+
+PUNCT = list("._-+~:^!,") + list("_-.~+") + ["a", "0", "rc", "\u0663"]
+
+
+def _near_pairs(ctx):
+    """vers text of every registered scheme holding two or three versions that differ in one character (inserted or
+    replaced, mostly punctuation), parsed with every combination of the simplify / validate flags: the constraints are
+    sorted, de-duplicated through a set and validated, so the versions are compared with each other and hashed --
+    a character that the constructor lets through but the comparison or the hash cannot handle shows here and
+    nowhere in a single-version test"""
+    from harness import corr_textvers as CT
+    per = 900 if ctx.thorough else 110
+    flags = [dict(), dict(simplify=True), dict(validate=True), dict(simplify=True, validate=True)]
+    for scheme, rc in sorted(VR.RANGE_CLASS_BY_SCHEMES.items()):
+        gname = CT.gen_name_of(rc.version_class)
+        if gname not in S.GEN:
+            continue
+        rng = ctx.rng("c16-pairs", scheme)
+        stream = "near-pairs:" + scheme
+        for i in range(per):
+            a = S.GEN[gname](rng)
+            vs = [a]
+            for _ in range(rng.choice([1, 1, 2])):
+                b = vs[-1]
+                j = rng.randint(0, len(b))
+                ch = rng.choice(PUNCT)
+                b = b[:j] + ch + (b[j + 1:] if rng.random() < 0.5 else b[j:])
+                vs.append(b)
+            if rng.random() < 0.3:
+                vs.append(a)          # the same text again
+            rng.shuffle(vs)
+            text = "vers:%s/%s" % (scheme, "|".join(rng.choice([">=", "<=", "<", ">", "!=", ""]) + v for v in vs))
+            kw = flags[i % 4]
+            try:
+                VersionRange.from_string(text, **kw)
+                out = "ok"
+            except RecursionError as e_:
+                out, e = "RecursionError", e_
+            except Exception as e_:  # noqa: BLE001
+                e = e_
+                out = type(e).__name__
+            ctx.count(stream, key=(text, i % 4), nontrivial=out != "ok", error=None if out == "ok" else out,
+                      branch=",".join(sorted(kw)) or "no flags")
+            if out != "ok" and not declared_for("vers", e):
+                ctx.disagree(stream, text, out, "declared error or success", True,
+                             {"entry_point": "VersionRange.from_string", "flags": kw, "text": text, "clause": "%s escapes" % out,
+                              "python": "from univers.version_range import VersionRange as R; R.from_string(%r, **%r)" % (text, kw)},
+                             region=_region("from_string", text, out, e), spec="declared error or success")
 
 
 def _outcome(f):
